@@ -1,4 +1,5 @@
 #!/bin/sh
-# Full pinned suite against every kept seeded change (scratch worktrees under /tmp, removed afterwards). Results: seeded/<name>/fullsuite.txt
+# Full pinned suite against every kept seeded change that has no fullsuite.txt yet (scratch worktrees under /tmp, removed afterwards).
+# Results: seeded/<name>/fullsuite.txt      usage: bin/seed_fullsuite_all.sh [parallelism]
 cd /verif/seeded
-ls -d */ | tr -d / | xargs -P 4 -I{} sh -c '/verif/bin/seed_verify.sh full_{} /verif/seeded/{} FULL > /verif/seeded/{}/fullsuite.txt 2>&1; rm -f /tmp/sv_full_{}.xml /tmp/sv_full_{}.tests.log'
+for d in $(ls -d */ | tr -d / | grep -v "^_"); do [ -s $d/fullsuite.txt ] || echo $d; done | xargs -P ${1:-4} -I{} sh -c '/verif/bin/seed_verify.sh full_{} /verif/seeded/{} FULL > /verif/seeded/{}/fullsuite.txt 2>&1; rm -f /tmp/sv_full_{}.xml /tmp/sv_full_{}.tests.log /tmp/sv_full_{}.*.log /tmp/sv_demo_full_{}.py'
